@@ -8,6 +8,7 @@ import Aiorpcx.Facts.C04
     dec <P> <J payload>              -> item line                 `message_to_item` after loads
     decx <P> <outcome>               -> item line                 outcome ∈ unicode|json|recursion|intdigits
     req <P> <s method> <J args> <J id>   -> ok <J payload> | item line (error)
+      (payloads and replies are printed with `canonMsg`: members sorted by name)
     res <P> <J result> <J id>        -> ok <J payload>
     err <P> <J code> <J msg> <J id>  -> ok <J payload>
     batch <P> <k> (R <s> <J> <J> | N <s> <J>)*   -> ok <J array of payloads> | item line (error)
@@ -41,8 +42,8 @@ def maskMsg : J → J
 
 def showReply : Option Reply → String
   | none => "-"
-  | some (.single p) => showJ (maskMsg p)
-  | some (.batch ps) => showJ (.arr (ps.map maskMsg))
+  | some (.single p) => showJ (canonMsg (maskMsg p))
+  | some (.batch ps) => showJ (.arr (ps.map fun p => canonMsg (maskMsg p)))
 
 def showExc : Exc → String
   | .py e => "PY " ++ e.name
@@ -116,7 +117,7 @@ def handle (line : String) : String :=
           match parsePrefix r1 with
           | some (a, r2) =>
               match parseToks r2 with
-              | some i => showR (fun v => "ok " ++ showJ v) (requestPayload P m a i)
+              | some i => showR (fun v => "ok " ++ showJ (canonMsg v)) (requestPayload P m a i)
               | none => "bad-op"
           | none => "bad-op"
       | _, _ => "bad-op"
@@ -124,7 +125,7 @@ def handle (line : String) : String :=
       match parseProto p, parsePrefix rest with
       | some P, some (v, r1) =>
           match parseToks r1 with
-          | some i => "ok " ++ showJ (responsePayload P v i)
+          | some i => "ok " ++ showJ (canonMsg (responsePayload P v i))
           | none => "bad-op"
       | _, _ => "bad-op"
   | "err" :: p :: rest =>
@@ -133,7 +134,7 @@ def handle (line : String) : String :=
           match parsePrefix r1 with
           | some (m, r2) =>
               match parseToks r2 with
-              | some i => "ok " ++ showJ (errorPayload P c m i)
+              | some i => "ok " ++ showJ (canonMsg (errorPayload P c m i))
               | none => "bad-op"
           | none => "bad-op"
       | _, _ => "bad-op"
@@ -141,7 +142,7 @@ def handle (line : String) : String :=
       match parseProto p, k.toNat? with
       | some P, some k =>
           match parseMembers k rest with
-          | some ms => showR (fun ps => "ok " ++ showJ (.arr ps)) (batchPayloads P ms)
+          | some ms => showR (fun ps => "ok " ++ showJ (.arr (ps.map canonMsg))) (batchPayloads P ms)
           | none => "bad-op"
       | _, _ => "bad-op"
   | "detect" :: rest =>
